@@ -264,9 +264,9 @@ func idgenConc(raw json.RawMessage) (any, error) {
 	}
 	var saved []byte
 	type phaseOut struct {
-		Op    string     `json:"op"`
+		Op    string   `json:"op"`
 		IDs   []string `json:"ids,omitempty"` // per goroutine: the IDs in call order, space separated
-		Error string     `json:"error,omitempty"`
+		Error string   `json:"error,omitempty"`
 	}
 	var outs []phaseOut
 	for _, ph := range in.Phases {
